@@ -42,10 +42,12 @@ def amplification(case, fi, ri, yvals, yrvals):
     """per-interval bound on how far rounding of the integrals can move samples: scale / weight mass"""
     x = [float(v) for v in case["x"]]
     xr = [float(v) for v in case["x_ref"]]
+    gmag = max(max(abs(float(v)) for v in yvals), max(abs(float(v)) for v in yrvals))
     out = []
     for k in range(len(fi) - 1):
         a, b = fi[k], fi[k + 1]
         sc = I.scale(x, yvals, a, b, case["target_rule"]) + I.scale(xr, yrvals, ri[k], ri[k + 1], case["ref_rule"])
+        sc += 1e-3 * gmag * (x[b] - x[a])      # rounding leakage from the neighbouring stretches (see C01)
         d = M.weight_mass(x, a, b, case["alpha"], case["target_rule"])
         out.append(sc / d if d > 0 else float("inf"))
     return out
